@@ -479,12 +479,14 @@ Fixpoint get_action (paths : list path) (v : val) {struct v} : option action :=
   end.
 
 (* include tree on the wire: node 0 is the root configurator; entry k (k>=1) = [parent; spec] *)
-Fixpoint node_paths (nodes : list val) (acc : list path) : option (list path) :=
+Fixpoint node_paths (cp : path -> text -> path) (nodes : list val) (acc : list path) : option (list path) :=
   match nodes with
   | [] => Some acc
-  | VL [VI par; VT spec] :: r => node_paths r (acc ++ [child_path (nth (Z.to_nat par) acc []) spec])
+  | VL [VI par; VT spec] :: r => node_paths cp r (acc ++ [cp (nth (Z.to_nat par) acc []) spec])
   | _ => None
   end.
+(* what the property means by "include chain": the including chain followed by the included spec *)
+Definition spec_child_path (parent : path) (spec : text) : path := parent ++ [spec].
 
 Definition put_event (e : event) : val := match e with Run a => VL [VI 0; vN a] | Force a => VL [VI 1; vN a] end.
 Definition put_outcome (o : outcome) : val :=
@@ -504,20 +506,24 @@ Definition put_spec_outcome (o : spec_outcome) : val :=
   end.
 Definition put_aids (l : list action) : val := VL (map (fun a => vN (aid a)) l).
 
-(* case = [nodes; actions]
+(* case = [mode; nodes; actions]   mode 1: declared through Configurator.include (the model computes
+   the include chains with [child_path]); mode 0: chains handed to ActionState.action as given.
+   The specification always reads the chains as the property does ([spec_child_path]).
    answer = [ [outcome; log] of commit;  [outcome; log] of commit_spec;  [outcome; log] of spec_exec;
               [wf_ids; wf_orders; flat];
               resolve on a fresh state: [outcome; yielded aids; remaining aids; min_order; start] ] *)
 Definition run_C04 (v : val) : val :=
   ret_or_bad (
     match v with
-    | VL [VL nodes; VL acts] =>
-        olet paths := node_paths nodes [[]] in
-        olet acts := map_opt (get_action paths) acts in
+    | VL [VI mode; VL nodes; VL wacts] =>
+        olet mpaths := node_paths (if Z.eqb mode 1 then child_path else spec_child_path) nodes [[]] in
+        olet spaths := node_paths spec_child_path nodes [[]] in
+        olet acts := map_opt (get_action mpaths) wacts in
+        olet sacts := map_opt (get_action spaths) wacts in
         let '(o, lg) := commit acts in
-        let '(so, slg) := commit_spec acts in
-        let '(xo, xlg) := spec_exec acts in
-        let '(ro, ry, _, rst) := resolve cfg_current cstate0 acts in
+        let '(so, slg) := commit_spec sacts in
+        let '(xo, xlg) := spec_exec sacts in
+        let '(ro, ry, _, rst) := resolve cfg_current cstate0 sacts in
         Some (VL [VL [put_outcome o; VL (map put_event lg)];
                   VL [put_spec_outcome so; VL (map put_event slg)];
                   VL [put_spec_outcome xo; VL (map put_event xlg)];
